@@ -38,6 +38,9 @@ STRESS = [
     dict(mu=[[-(2.0**15), 3.0], [2.0**15, 3.5]], var=[[2.0**-14, 2.0**10], [2.0**-12, 2.0**-10]], w=[0.125, 0.875]),
     dict(mu=[[1e6 + 0.1], [1e6 + 0.7], [-1e6]], var=[[1e-3], [2e-3], [1.0]], w=[0.25, 0.5, 0.25]),
     dict(mu=[[12345.678, -0.001, 1e5]], var=[[1e-6, 1e-6, 1e2]], w=[1.0]),
+    # many features with small variances: the product of the variances underflows, the sum of their logarithms does not
+    dict(mu=[[0.25 * d for d in range(30)], [1.0 - 0.125 * d for d in range(30)]], var=[[2.0**-40] * 30, [2.0**-36] * 30], w=[0.25, 0.75]),
+    dict(mu=[[float(d % 3) for d in range(200)]], var=[[2.0**-7] * 200], w=[1.0]),
 ]
 
 
@@ -134,7 +137,7 @@ def run_case(case):
     want_vis = np.maximum(var, floor if floor is not None else np.finfo(float).eps)
     c.close(vis, np.broadcast_to(want_vis, vis.shape), "visible_variances", "variances after floor", tags, rtol=1e-15)
     w = np.array(m.weights, dtype=float)
-    X = _samples(D, s, o)
+    X = _samples(D, s, o) if "stress" not in case else None
     if "stress" in case:
         sd = np.sqrt(vis)
         pts = [mu[cc] + k * sd[cc] for cc in range(C) for k in (0.0, 0.5, -3.0, 40.0)]
